@@ -316,16 +316,53 @@ STEER_CONFIGS = {
 }
 
 
-def steer_behaviours(ctx, name, num, seed):
-    """Random behaviours of JoeMC (via JoeSched.tla, tlc -simulate) for one configuration -> list of step lists."""
+STEER_CONFIGS.update({
+    # small configurations explored exhaustively (breadth-first under a VIEW): one behaviour per leaf of TLC's search tree, which
+    # together pass through every reachable state (View0) / every reachable state and step into it (View1) of the configuration
+    "tiny": (dict(subs=["s0"], sub_topics={"s0": ["a"]}, pubs=["p0k0"], pub_topics={"p0k0": ["a"]}, downs=[], last_ids={}, pub_after={},
+                  cancel_subs=["s0"], faults=0, with_replayer=False), 0, ["none"],
+             "1 subscriber, 1 publish, a cancellation: every transition of the model"),
+    "tiny-down": (dict(subs=["s0"], sub_topics={"s0": ["a"]}, pubs=["p0k0"], pub_topics={"p0k0": ["a"]}, downs=["k1"], last_ids={}, pub_after={},
+                       cancel_subs=["s0"], faults=0, with_replayer=False), 0, ["none"],
+                  "1 subscriber, 1 publish, 1 Shutdown, a cancellation: every transition of the model"),
+    "pair-fault": (dict(subs=["s0", "s1"], sub_topics={"s0": ["a"], "s1": ["a"]}, pubs=["p0k0"], pub_topics={"p0k0": ["a"]}, downs=["k1"], last_ids={},
+                        pub_after={}, cancel_subs=["s0"], faults=1), 0, ["finite-manual"],
+                   "2 subscribers, 1 publish, 1 Shutdown, a cancellation, one fault anywhere (Send / Flush / Put / Replay): every state of the model"),
+})
+
+
+def steer_consts(name):
     kw, down_after, _, _ = STEER_CONFIGS[name]
     subs, pubs, downs = kw["subs"], kw["pubs"], kw["downs"]
-    consts = {"Subs": set(subs), "Pubs": set(pubs), "Downs": set(downs), "None": NONE,
-              "PubAfter": fn({p: kw["pub_after"].get(p, NONE) for p in pubs}), "WithReplayer": kw.get("with_replayer", True), "RCap": kw.get("rcap", 0),
-              "SubTopics": fn({s: set(kw["sub_topics"][s]) for s in subs}), "PubTopics": fn({p: set(kw["pub_topics"][p]) for p in pubs}),
-              "LastIDs": fn({s: kw["last_ids"].get(s, NONE) for s in subs}), "FaultBudget": kw["faults"],
-              "CancelSubs": set(kw["cancel_subs"]), "CtxDowns": set(kw.get("ctx_downs", ())), "DownAfter": down_after, "SubAfter": kw.get("sub_after", 0),
-              "FaultKinds": set(kw.get("fault_kinds", ("send", "flush", "put", "rend"))), "FaultOdds": kw.get("fault_odds", 4)}
+    return {"Subs": set(subs), "Pubs": set(pubs), "Downs": set(downs), "None": NONE,
+            "PubAfter": fn({p: kw["pub_after"].get(p, NONE) for p in pubs}), "WithReplayer": kw.get("with_replayer", True), "RCap": kw.get("rcap", 0),
+            "SubTopics": fn({s: set(kw["sub_topics"][s]) for s in subs}), "PubTopics": fn({p: set(kw["pub_topics"][p]) for p in pubs}),
+            "LastIDs": fn({s: kw["last_ids"].get(s, NONE) for s in subs}), "FaultBudget": kw["faults"],
+            "CancelSubs": set(kw["cancel_subs"]), "CtxDowns": set(kw.get("ctx_downs", ())), "DownAfter": down_after, "SubAfter": kw.get("sub_after", 0),
+            "FaultKinds": set(kw.get("fault_kinds", ("send", "flush", "put", "rend"))), "FaultOdds": kw.get("fault_odds", 4)}
+
+
+def steer_exhaustive(ctx, name, view):
+    """Every reachable state (View0) or state-and-last-step (View1) of a small configuration: TLC searches breadth-first under the VIEW
+    (one shortest history per view value) and prints every history; the leaves of that tree are the behaviours to replay (every other
+    history is a prefix of one of them).  Returns (behaviours, distinct view values)."""
+    consts = steer_consts(name)
+    consts["FaultOdds"] = 1
+    mod = "JX_" + re.sub(r"[^A-Za-z0-9_]", "_", name) + "_" + view
+    d = core.write_mc(ctx, mod, "JoeSched", consts, init="SInit", nxt="SNext", invariants=["ExportAll"], view=view,
+                      extra_defs="ExportAll == hist # <<>> => PrintT(ToJson(hist))")
+    r = core.run_tlc(ctx, d, mod, workers=1, timeout=3000)
+    if r.violated:
+        raise core.ToolFailure("JoeSched.tla: unexpected %s in configuration %r" % (r.violated, name))
+    hs = [tuple(tuple(x) for x in h) for h in core.tlc_json_lines(r.stdout_path)]
+    prefixes = {h[:-1] for h in hs}
+    leaves = [[list(x) for x in h] for h in hs if h not in prefixes]
+    return leaves, r.distinct
+
+
+def steer_behaviours(ctx, name, num, seed):
+    """Random behaviours of JoeMC (via JoeSched.tla, tlc -simulate) for one configuration -> list of step lists."""
+    consts = steer_consts(name)
     mod = "JS_" + re.sub(r"[^A-Za-z0-9_]", "_", name)
     d = core.write_mc(ctx, mod, "JoeSched", consts, init="SInit", nxt="SNext", invariants=["Export"])
     r = core.run_tlc(ctx, d, mod, workers=1, simulate="num=%d" % num, depth=400, seed=seed, timeout=600)
@@ -347,9 +384,18 @@ def steer_cases(ctx, names, num, tag):
     per = {}
     with open(path, "w") as f:
         for name in names:
+            view = None
+            if "@" in name:
+                name, view = name.split("@")
             kw, _, kinds, what = STEER_CONFIGS[name]
-            beh = steer_behaviours(ctx, name, num, ctx.seed * 7919 + len(name))
-            per[name] = {"behaviours": len(beh), "replayers": kinds, "explores": what}
+            if view:
+                beh, nview = steer_exhaustive(ctx, name, view)
+                per[name + "@" + view] = {"behaviours": len(beh), "replayers": kinds, "explores": what, "exhaustive": True,
+                                          "covers": ("every reachable state" if view == "View0" else "every reachable state and the step into it") +
+                                                    " of the configuration (%d)" % nview}
+            else:
+                beh = steer_behaviours(ctx, name, num, ctx.seed * 7919 + len(name))
+                per[name] = {"behaviours": len(beh), "replayers": kinds, "explores": what}
             for i, steps in enumerate(beh):
                 kind = kinds[i % len(kinds)]
                 if not kw.get("with_replayer", True):
@@ -447,7 +493,7 @@ def run_C03(ctx):
     agg = new_agg()
     model_check(ctx, ["order"] if ctx.quick else ["order", "big-faults"], agg)
     trace_check(ctx, "mix", 500 if ctx.quick else 6000, "mix", agg)
-    steer_check(ctx, ["fan3", "topics", "fan3-2f"], 150 if ctx.quick else 2500, "c03", agg)
+    steer_check(ctx, ["fan3", "topics", "fan3-2f", "tiny@View1", "tiny-down@View0"] + ([] if ctx.quick else ["tiny-down@View1"]), 150 if ctx.quick else 2500, "c03", agg)
     joe_evidence(ctx, agg, "Delivery / Complete / ProgramOrder / Flushed / BeforeCancel (guard of RetSub) checked by TLC over all interleavings of the configurations listed; " + COMMON_RULE, [])
 
 
@@ -465,7 +511,7 @@ def run_C06(ctx):
     agg = new_agg()
     model_check(ctx, ["faults"] if ctx.quick else ["faults", "big-faults", "two-shutdowns"], agg)
     trace_check(ctx, "faults", 600 if ctx.quick else 8000, "faults", agg)
-    steer_check(ctx, ["fan3-2f", "replayer-faults", "shutdown", "resume-wrap"], 120 if ctx.quick else 2500, "c06", agg)
+    steer_check(ctx, ["fan3-2f", "replayer-faults", "shutdown", "resume-wrap", "tiny-down@View1"] + ([] if ctx.quick else ["pair-fault@View0"]), 120 if ctx.quick else 2500, "c06", agg)
     if not ctx.quick:
         trace_check(ctx, "faults", 1500, "faults-race", agg, race=True)
     joe_evidence(ctx, agg, "NoPanic / NoLateCall / ErrReturned (guard of RetSub) over all interleavings incl. a failure racing the cancellation of the same subscriber; scenarios run in "
@@ -477,7 +523,7 @@ def run_C07(ctx):
     agg = new_agg()
     model_check(ctx, ["shutdown"] if ctx.quick else ["shutdown", "shutdown2", "big-liveness", "two-shutdowns"], agg)
     trace_check(ctx, "shutdown", 500 if ctx.quick else 6000, "shutdown", agg)
-    steer_check(ctx, ["shutdown", "shutdown-early", "topics"], 150 if ctx.quick else 2500, "c07", agg)
+    steer_check(ctx, ["shutdown", "shutdown-early", "topics", "tiny-down@View0"] + ([] if ctx.quick else ["tiny-down@View1"]), 150 if ctx.quick else 2500, "c07", agg)
     # calls racing the provider's first-use initialisation: one scenario = 150 trials on fresh providers
     if not agg.get("stop"):
         trace_check(ctx, "firstuse", 6 if ctx.quick else 80, "firstuse", agg, chunk=20)
@@ -490,6 +536,6 @@ def run_C17(ctx):
     agg = new_agg()
     model_check(ctx, ["faults"] if ctx.quick else ["faults", "big-faults"], agg)
     trace_check(ctx, "faults", 600 if ctx.quick else 8000, "isolation", agg)
-    steer_check(ctx, ["fan3", "replayer-faults", "fan3-2f", "resume-wrap"], 120 if ctx.quick else 2500, "c17", agg)
+    steer_check(ctx, ["fan3", "replayer-faults", "fan3-2f", "resume-wrap"] + ([] if ctx.quick else ["pair-fault@View0"]), 120 if ctx.quick else 2500, "c17", agg)
     joe_evidence(ctx, agg, "Delivery / Complete for every subscriber that has not itself failed, PutError, AfterPanic over all interleavings with one fault anywhere; traces with a scripted "
                  "replayer that returns an error or panics on its k-th Put / Replay and subscribers of which a seeded subset fails; " + COMMON_RULE, [])
